@@ -276,6 +276,13 @@ def gen_efi(rng, tier):
                 body = u32(ds) + u32(ver) + rbytes(rng, maplen)
                 t = tag(17, body, rng=rng)
                 out.append(sweep(surround(rng, t)))
+    # map lengths that are NOT a multiple of 8 (tag size with a padding residue): one to seven bytes short of n descriptors -
+    # rounding the length up would make them look complete
+    for ds in (40, 48, 56, 64):
+        for n in (1, 2):
+            for r in range(1, 8):
+                body = u32(ds) + u32(1) + rbytes(rng, n * ds - r)
+                out.append(sweep(surround(rng, tag(17, body, rng=rng))))
     # boot services not exited: the map is withheld
     for _ in range(10):
         out.append(sweep(mbi([t_efi_mmap(rng), t_efi_bs(rng)])))
@@ -316,6 +323,30 @@ def gen_elf(rng, tier):
         out.append(sweep(mbi([tag(9, body, rng=rng)])))
         body = u32(0) + u32(0xFFFFFFFF) + u32(0xFFFFFFFF)
         out.append(sweep(mbi([tag(9, body, rng=rng)])))
+    return out
+
+
+def gen_interior_end(rng):
+    """tags of type 0 in the MIDDLE of the region (size 8 = a complete end tag image, and other sizes) followed by modules and
+    other tags: the walk does not stop at them, so neither may the module iterator or a getter"""
+    out = []
+    for endsize in (8, 9, 12, 16):
+        e = tag(0, rbytes(rng, endsize - 8), rng=rng)
+        out.append(sweep(mbi([t_cmdline(rng), e, t_module(rng), t_module(rng)])))
+        out.append(sweep(mbi([t_module(rng), e, t_module(rng), e, t_module(rng), t_meminfo(rng)])))
+        out.append(sweep(mbi([e, t_loader(rng), t_apm(rng), t_module(rng)])))
+        out.append(sweep(mbi([e, e, t_bootdev(rng), t_fb(rng), t_smbios(rng), t_module(rng)])))
+        out.append(sweep(mbi([t_efi_mmap(rng), e, t_efi_bs(rng)])))
+    return out
+
+
+def gen_fb_pairs(rng):
+    """two framebuffer tags: the getter reports the FIRST one - also when its type byte is unknown and a later one is fine"""
+    out = []
+    for first in (3, 7, 0x80, 0xFF, 0, 1, 2):
+        for second in (0, 1, 2, 9):
+            out.append(sweep(mbi([t_fb(rng, typ=first), t_fb(rng, typ=second)])))
+            out.append(sweep(mbi([t_cmdline(rng), t_fb(rng, typ=first), t_module(rng), t_fb(rng, typ=second)])))
     return out
 
 
@@ -552,9 +583,20 @@ def gen_scale(rng):
     return out
 
 
+def gen_headers_interior_end(rng):
+    """header tags of type 0 in the middle of the header: the walk and every typed getter go on behind them"""
+    out = []
+    for endsize in (8, 12, 16):
+        e = htag(0, 0, rbytes(rng, endsize - 8), rng=rng)
+        out.append(hsweep(header([rand_htag(rng, 6), e, rand_htag(rng, 10), rand_htag(rng, 3)])))
+        out.append(hsweep(header([e, rand_htag(rng, 2), rand_htag(rng, 5), rand_htag(rng, 1)])))
+        out.append(hsweep(header([rand_htag(rng, 4), e, e, rand_htag(rng, 7), rand_htag(rng, 8), rand_htag(rng, 9)])))
+    return out
+
+
 def gen_headers_scale(rng):
     out = []
-    for n in (63, 64, 255, 256, 257, 1000):
+    for n in (63, 64, 255, 256, 257, 1000, 2036, 2037, 2040, 4096, 10000):
         out.append(hsweep(header([htag(1, rng.randrange(2), rbytes(rng, 4 * n), rng=rng)])))
     out.append(hsweep(header([rand_htag(rng, rng.choice([2, 3, 4, 5, 6, 7, 8, 9, 10])) for _ in range(400)])))
     return out
